@@ -215,4 +215,54 @@ def propagateControlFlowD4 (p : Program) : Program :=
   let p' := retargetJumps (allRetargets p) p
   removeNewOrphanedBlocksD4 p' before (orphanTids p')
 
+/-! ### structural hypotheses of the run-level theorem (RunControlFlow.lean), executable
+
+The retarget map is keyed by jump tid and the orphan removal by block tid, both across the whole program. -/
+
+namespace CF
+
+/-- jump tids are unique in the program -/
+def JmpTidsUnique (p : Program) : Prop :=
+  ∀ s ∈ p.subs, ∀ b ∈ s.term.blocks, ∀ j ∈ b.term.jmps,
+    ∀ s' ∈ p.subs, ∀ b' ∈ s'.term.blocks, ∀ j' ∈ b'.term.jmps, j'.tid = j.tid → s' = s ∧ b' = b ∧ j' = j
+
+/-- block tids are unique in the program -/
+def BlkTidsUnique (p : Program) : Prop :=
+  ∀ s ∈ p.subs, ∀ b ∈ s.term.blocks, ∀ s' ∈ p.subs, ∀ b' ∈ s'.term.blocks, b'.tid = b.tid → s' = s ∧ b' = b
+
+instance (p : Program) : Decidable (JmpTidsUnique p) := by unfold JmpTidsUnique; infer_instance
+instance (p : Program) : Decidable (BlkTidsUnique p) := by unfold BlkTidsUnique; infer_instance
+
+def jmpShapeB (a : Term Blk) : Bool :=
+  match a.term.jmps with
+  | [] | [_] => true
+  | [j, _] => (match j.term with | .CBranch _ _ => true | _ => false)
+  | _ => false
+
+def noCallOtherRetB (j : Term Jmp) : Bool :=
+  match j.term with
+  | .CallOther _ (some _) => false
+  | _ => true
+
+def callRetOkB (p : Program) (j : Term Jmp) : Bool :=
+  match j.term with
+  | .Call callee (some _) =>
+    isExternTid p callee ||
+      (match internalCallee p callee with
+        | some sc => !(sc.term.blocks.filter hasReturnJmp).isEmpty
+        | none => false)
+  | _ => true
+
+def blkOkB (p : Program) (a : Term Blk) : Bool :=
+  jmpShapeB a && a.term.jmps.all fun j => noCallOtherRetB j && callRetOkB p j
+
+end CF
+
+open CF in
+/-- executable form of the structural hypotheses `CfOk` of `propagateControlFlow_runSub` -/
+def cfOkB (p : Program) : Bool :=
+  decide (JmpTidsUnique p) && decide (BlkTidsUnique p) &&
+    p.subs.all fun s => s.term.blocks.all fun b => blkOkB p b
+
+
 end CweModel.C10
